@@ -89,8 +89,10 @@ PROPS.update({
               trusted=BOUNDED_TRUSTED, dropped=["HuffmanContainer is built on BTreeMap/BinaryHeap, which neither Verus (no spec) nor Kani (intractable) can execute; no function of it is under a deductive contract"]),
     "C07": _p("model_checking", ["codecs"], "bounded-exhaustive native driver over training sets x probe strings x merge generations x clear.",
               trusted=BOUNDED_TRUSTED, dropped=["DictionaryCodec is built on BTreeMap and a heavy-hitter summary; no function of it is under a deductive contract"]),
-    "C09": _p("model_checking", [], "twin harnesses (clone / clone_from, then divergence) over 12 compositions + FlatStack, and two program-text obligations (field completeness, no shared-state primitives).",
-              scans=["clone_field_complete", "no_shared_state"], trusted=BOUNDED_TRUSTED, dropped=["Clone on type parameters has no usable Verus specification"]),
+    "C09": _p("model_checking", ["clone"], "twin harnesses (clone / clone_from, then divergence) over 17 compositions + FlatStack, and two program-text obligations (field completeness, no shared-state primitives); small proved part: the hand-written clone / clone_from of nine wrappers yield a value equal to the source, relative to the assumed law for their type parameters and Vec.",
+              scans=["clone_field_complete", "no_shared_state"],
+              trusted=BOUNDED_TRUSTED + ["clone world: `CloneLaw` (clone / clone_from of every type parameter and of Vec<T> return / leave a value equal to the source) is ASSUMED for the parts and proved for the wrapper; std's Clone carries no usable Verus specification, so the law replaces the `Clone` bound in the impl headers"],
+              dropped=["the derived Clone impls (index containers, MirrorRegion, tuple regions, codec regions) are macro output: not under contract", "HuffmanContainer / CodecRegion clone_from (BTreeMap state): bounded tier only", "independence of the two copies after cloning is an ownership fact (scan no_shared_state) plus the twin harnesses, not a postcondition"]),
     "C14": _p("model_checking", ["regions"], "IntoOwned laws on read items of slice / columns / option / result / nested-slice regions and Huffman Wrapped items, both representations, five prior clone_onto targets.",
               trusted=BOUNDED_TRUSTED, dropped=["IntoOwned bodies are iterator adapters / std ToOwned calls outside the Verus dialect"]),
     "C15": _p("model_checking", [], "==, partial_cmp, cmp of read items against the owned vectors for all triples of short vectors in every representation; Wrapped raw versus encoded.",
